@@ -31,6 +31,23 @@ type C12SubCase struct {
 	Poll   bool   `json:"poll"`   // a Poll follows the subscription
 	Gone   bool   `json:"gone"`   // the subscriber's context is already cancelled when its message is processed
 	InPath bool   `json:"inPath"` // the target is named by the entry's path instead of the prefix
+	Down   bool   `json:"down"`   // the device has gone away (its server is stopped) while its connection is still registered
+	Polls  int    `json:"polls"`  // further Poll messages after the first one
+}
+
+// c12SubAll writes the session domain out in full: 2 targets x 3 modes x poll x subscriber-gone x target-in-path x
+// device-down = 96 sessions. Every quick run serves all of them (spread over the workers), because the shapes that
+// matter are single points of this product (e.g. "subscriber gone AND a Poll follows").
+func c12SubAll() []C12SubCase {
+	var out []C12SubCase
+	for _, tg := range []string{"t1", "t4"} {
+		for mode := int32(0); mode < 3; mode++ {
+			for bits := 0; bits < 16; bits++ {
+				out = append(out, C12SubCase{Target: tg, Mode: mode, Poll: bits&1 != 0, Gone: bits&2 != 0, InPath: bits&4 != 0, Down: bits&8 != 0})
+			}
+		}
+	}
+	return out
 }
 
 func genC12Sub(rt *rapid.T) C12SubCase {
@@ -40,6 +57,8 @@ func genC12Sub(rt *rapid.T) C12SubCase {
 		Poll:   c12Pick(rt, 2, "poll", 3) == 0,
 		Gone:   c12Pick(rt, 2, "gone", 4) == 0,
 		InPath: c12Pick(rt, 2, "inpath", 5) == 0,
+		Down:   c12Pick(rt, 2, "down", 6) == 0,
+		Polls:  c12Pick(rt, 3, "polls", 7),
 	}
 }
 
@@ -53,7 +72,9 @@ func (c C12SubCase) msgs() []*gpb.SubscribeRequest {
 	}
 	out := []*gpb.SubscribeRequest{{Request: &gpb.SubscribeRequest_Subscribe{Subscribe: l}}}
 	if c.Poll {
-		out = append(out, &gpb.SubscribeRequest{Request: &gpb.SubscribeRequest_Poll{Poll: &gpb.Poll{}}})
+		for i := 0; i <= c.Polls; i++ {
+			out = append(out, &gpb.SubscribeRequest{Request: &gpb.SubscribeRequest_Poll{Poll: &gpb.Poll{}}})
+		}
 	}
 	return out
 }
@@ -77,6 +98,9 @@ func TestC12Child(t *testing.T) {
 	}
 	if err := w.S.Run(); err != nil {
 		t.Fatal(err)
+	}
+	if c.Down {
+		w.Devices[c.Target].Stop()
 	}
 	// the session is opened three times, as three subscribers would: only a connection's first southbound stream is at risk
 	for i := 0; i < 3; i++ {
@@ -103,15 +127,15 @@ func TestC12Child(t *testing.T) {
 		st := &c12SubStream{ctx: ctx, msgs: msgs, end: "eof"}
 		err := w.Gnmi.Subscribe(st)
 		fmt.Printf("session %d answered: %v\n", i+1, err)
-		time.Sleep(150 * time.Millisecond)
+		time.Sleep(100 * time.Millisecond)
 		cancel()
 	}
-	time.Sleep(300 * time.Millisecond)
+	time.Sleep(200 * time.Millisecond)
 	fmt.Println(c12ChildOK)
 }
 
 func runC12Sub(c C12SubCase, x *vstat.Ctx) error {
-	x.Class(fmt.Sprintf("child:target-in-path=%v,poll=%v,subscriber-gone=%v", c.InPath, c.Poll, c.Gone))
+	x.Class(fmt.Sprintf("child:target-in-path=%v,poll=%v,subscriber-gone=%v,device-down=%v", c.InPath, c.Poll, c.Gone, c.Down))
 	x.NonTrivial("a well-formed Subscribe reached the real southbound client of a connected target")
 	cj, _ := json.Marshal(c)
 	dir, err := os.MkdirTemp("", "c12child")
@@ -161,5 +185,5 @@ func runC12Sub(c C12SubCase, x *vstat.Ctx) error {
 // target whose device refuses the stream (or whose subscriber has already left)
 // must be answered; the process must survive it.
 func TestC12_SubscribeRefusedByTarget(t *testing.T) {
-	vstat.Run(t, "C12", genC12Sub, runC12Sub)
+	vstat.RunEnum(t, "C12", c12SubAll(), genC12Sub, runC12Sub)
 }
